@@ -73,7 +73,11 @@ def numeric_of(v):
     if isinstance(v, str):
         return int(v.split("-")[1]) if v.startswith("string-") else None
     if isinstance(v, AiScript):
-        return AiScriptTranscoder.encode(v)
+        # the format: the script's 4-character name IS the u32, little-endian (never the library's own encoder)
+        try:
+            return int.from_bytes(v.name.encode("latin1"), "little") if len(v.name) == 4 else None
+        except UnicodeEncodeError:
+            return None
     return None
 
 
@@ -232,6 +236,9 @@ def run(prop, tier, seed):
                     gmap = {d["arg"]: d["field"] for d in row["decode"]}
                     if obs != gmap:
                         out.disagreements.append({"op": "trigrow %s %d" % (kind, srow["id"]), "model": gmap, "real": obs})
+            # boundary values of the plain-number arguments (0 and the field's maximum): decode then encode is exact
+            if row:
+                boundary_probe(kind, row, srow, fields, dctx, ectx, out)
             # every enum member of every enum-typed argument
             if row:
                 enum_sweep(kind, row, srow, fields, dctx, ectx, out, tier)
@@ -253,6 +260,65 @@ def run(prop, tier, seed):
         out.notes.append("model driver unavailable: %s" % e)
         out.disagreements.append({"op": "driver", "what": str(e)[:200]})
     return out
+
+
+def boundary_probe(kind, row, spec_row, fields, dctx, ectx, out):
+    from richchk.model.chk.trig.decoded_trigger_action import DecodedTriggerAction
+    from richchk.model.chk.trig.decoded_trigger_condition import DecodedTriggerCondition
+    from richchk.model.richchk.trig.trigger_action_id import TriggerActionId
+    from richchk.model.richchk.trig.trigger_condition_id import TriggerConditionId
+    from richchk.transcoder.richchk.transcoders.trig.rich_trigger_action_transcoder_factory import RichTriggerActionTranscoderFactory as AF
+    from richchk.transcoder.richchk.transcoders.trig.rich_trigger_condition_transcoder_factory import RichTriggerConditionTranscoderFactory as CF
+
+    tid = spec_row["id"]
+    typefield = "_action_id" if kind == "a" else "_condition_id"
+    codec_of_field = {d["field"]: d["codec"] for d in row["decode"]}
+    num_fields = [f for f in fields if codec_of_field.get(f) == "num"]
+    if not num_fields:
+        return
+    cls = DecodedTriggerAction if kind == "a" else DecodedTriggerCondition
+    idenum = TriggerActionId if kind == "a" else TriggerConditionId
+    member = next((m for m in idenum if m.id == tid), None)
+    try:
+        tc = (AF.make_rich_trigger_action_transcoder if kind == "a" else CF.make_rich_trigger_condition_transcoder)(member)
+    except Exception:  # noqa: BLE001
+        return
+    for what in ("zero", "max"):
+        rec = {}
+        for i, f in enumerate(fields):
+            codec = codec_of_field.get(f)
+            if f == typefield:
+                rec[f] = tid
+            elif f == "_flags":
+                rec[f] = 0
+            elif codec == "num":
+                rec[f] = 0 if what == "zero" else (1 << FIELD_WIDTH[f]) - 1
+            elif codec is None:
+                rec[f] = 0
+            elif codec.startswith("enum:"):
+                rec[f] = sorted(m.id for m in enum_class(codec[5:]))[0]
+            elif codec in ("loc", "loc!"):
+                rec[f] = 7 + i
+            elif codec in ("str", "strval"):
+                rec[f] = 300 + i
+            elif codec == "switch":
+                rec[f] = 40 + i
+            elif codec == "cuwp":
+                rec[f] = 3
+            elif codec == "ai":
+                rec[f] = int.from_bytes(b"JYDg", "little")
+            else:
+                rec[f] = 0
+        out.case("boundary-" + kind, repr((tid, what)).encode())
+        try:
+            back = tc.encode(tc.decode(cls(**rec), dctx), ectx)
+        except Exception as ex:  # noqa: BLE001
+            out.violations.append({"oracle": "a record whose plain-number arguments are %s decodes and encodes" % what, "kind": kind, "id": tid, "record": rec, "err": "%s: %s" % (type(ex).__name__, str(ex)[:120])})
+            continue
+        for f in num_fields:
+            if getattr(back, f) != rec[f]:
+                out.violations.append({"oracle": "a plain-number argument at its boundary value (%s) is written back exactly" % what, "kind": kind, "id": tid, "field": f, "got": getattr(back, f), "expected": rec[f]})
+                break
 
 
 def enum_sweep(kind, row, srow, fields, dctx, ectx, out, tier):
